@@ -451,3 +451,69 @@ def c_swizzle_dist(c, n, nscopes):
     exp_draws = (1 if nscopes > 1 else 0) + 1
     c.check("every draw comes from the RandState (scope choice if several, weighted walk, value inside a range)",
             exp_draws <= len(rs_.rng.draws) <= exp_draws + 1)
+
+
+@contract("swizzler.swizzle_field_l.order", ["C09"],
+          ["vsc.model.solvegroup_swizzler_partsel.SolveGroupSwizzlerPartsel.swizzle_field_l"],
+          lambda tier, seed: [(nd, no) for nd in (0, 2, 3) for no in (0, 2, 5)], replay="none",
+          note="steering order: rand sets with 0..3 dist fields and 0..5 other fields; the fields' hash values (which stand for "
+               "their addresses) are permuted: the sequence of steered fields and of RandState draws must not depend on them")
+def c_swizzle_order(c, ndist, nother):
+    import itertools
+    import vsc.model.solvegroup_swizzler_partsel as SW
+    from vsc.model.field_scalar_model import FieldScalarModel
+    from vsc.model.rand_set import RandSet
+    if ndist + nother == 0:
+        c.check("case skipped: empty rand set", True)
+        return
+
+    class HField(FieldScalarModel):
+        """a field whose hash (the stand-in for its address) is chosen by the contract"""
+
+        def __hash__(self):
+            return self.h
+
+        def __eq__(self, o):
+            return self is o
+
+    def run(hashes):
+        rs = RandSet()
+        fl = []
+        for i in range(ndist + nother):
+            f = HField("f%d" % i, 8, False, True)
+            f.h = hashes[i]
+            f.is_used_rand = True
+            rs.add_field(f)
+            fl.append(f)
+        for f in fl[:ndist]:
+            rs.dist_field_m[f] = ["scope"]
+        class FixedRng:
+            """a deterministic stream: the same call history gives the same draws"""
+            def __init__(self):
+                self.draws = []
+
+            def randint(self, lo, hi):
+                v = lo + (len(self.draws) * 3) % (hi - lo + 1)
+                self.draws.append((lo, hi, v))
+                return v
+        rng = FixedRng()
+        sw = SW.SolveGroupSwizzlerPartsel(rng, None)
+        order = []
+
+        def fake_swizzle_field(f, rs_, bm):
+            order.append(f.name)
+            return None
+        sw.swizzle_field = fake_swizzle_field
+        bt = GhostBoolector(oracle=lambda b, asserted, assumed: True)       # nothing is asserted: always SAT
+        sw.swizzle_field_l(list(rs.rand_fields()), rs, {}, bt)
+        return order, list(rng.draws)
+    n = ndist + nother
+    base = run(list(range(n)))
+    c.check("every dist field is steered, in rand-set order, before the (at most four) other fields",
+            base[0][:ndist] == ["f%d" % i for i in range(ndist)] and len(base[0]) == ndist + min(4, nother)
+            and len(set(base[0])) == len(base[0]), info=repr(base[0]))
+    for perm in (list(range(n))[::-1], [(i * 7 + 3) % 11 for i in range(n)], [5] * n):
+        got = run(perm)
+        c.check("C09: the order in which fields are steered and the draws made do not depend on the fields' hashes / addresses "
+                "(same seed, same class, same history => same values whatever the memory layout)",
+                got[0] == base[0] and got[1] == base[1], info="hashes %r: %r vs %r" % (perm, got[0], base[0]))
